@@ -599,7 +599,8 @@ def do_replay(path):
             err = abs(g - want) if g is not None and want is not None else None
         print('numeric probe (auxiliary): %s %s reduce=%s category=%s n=%d item %d'
               % (w['op'], w['mode'], w['reduce'], cat, len(xs), k))
-        print('got', repr(got), 'exact', float(want) if want is not None else None,
+        print('got', repr(got), 'exact (the variance for a stddev: squares are compared)'
+              if w['op'] in SQRT_OPS else 'exact', float(want) if want is not None else None,
               'error', float(err) if err is not None else None, 'tolerance', tol)
         bad = (err is None and not (got is None and want is None)) or (err is not None and err > tol)
         if bad:
@@ -820,7 +821,15 @@ def main(tier, replay):
         if len(rec['items']) >= 4 and nontrivial(rec) and rec['num'] == 'exact':
             samples.append({'verdicts (op: s/r -> step, clause, insync)': vd, 'trace': rec})
             break
-    uncovered = sorted({a for (_, _, r) in mc_stats for a, (d, t) in r.coverage.items() if t == 0})
+    import re
+    taken = {}
+    for (label, _, r) in mc_stats:      # (common's pattern misses "<Feed line .. (..)>: d:t")
+        for m in re.finditer(r'^<(\w+) line [^>]*of module MathAgg[^>]*>: (\d+):(\d+)', r.stdout,
+                             re.M):
+            taken[m.group(1)] = taken.get(m.group(1), 0) + int(m.group(3))
+    if not {'Feed', 'Complete'} <= set(taken):
+        raise C.MachineryError('TLC coverage output lacks the actions Feed / Complete: %r' % taken)
+    uncovered = sorted(a for a in ('Feed', 'Complete') if taken[a] == 0)
     nseq = lambda vmax, ln: sum((2 * vmax + 1) ** k for k in range(ln + 1))
     coverage = {
         'states': sum(r.distinct for (_, _, r) in mc_stats) + tstats['states'],
@@ -866,6 +875,7 @@ def main(tier, replay):
         'impl_model_in_sync': not out_of_sync_final,
         'impl_model_variant': model_variant,
         'actions_never_taken': uncovered,
+        'action_transitions (coverage run)': {a: taken[a] for a in ('Feed', 'Complete')},
         'mean_on_empty_input': {'outside_property': True, 'observed': mean_empty},
         'numeric_probe': dict(probe, kind='AUXILIARY python sampling, not model checking; oracle: '
                               'MathAgg part-2 definitions evaluated with exact integers/Fractions',
